@@ -106,7 +106,8 @@ def _ob_refusals(I):
     I.set_hint(HINT)
     pm_config(I)
     b = bank_of(I)
-    amt = I.sym('amount', lo=2, hi=U128 // 4)
+    # three assets: amounts small against the reserves, so that a native run of an (erroneously) accepted deposit does not stop at a tolerance
+    amt = I.sym('amount', lo=10 ** 3 if kind == 'three_assets' else 2, hi=10 ** 5 if kind == 'three_assets' else U128 // 4)
     b.set('user', 'uA', amt)
     if kind == 'empty_pool':
         put_pool(I, pool_info('p1', ['uA', 'uB'], [6, 6], [0, 0], xyk(), pool_fee(0, 0, 0)))
@@ -124,13 +125,37 @@ def _ob_refusals(I):
         msg = provide_msg('p1', receiver=Some('victim'), unlocking=Some(86400))
     ch = Chain(I, CONTRACTS)
     st, _ = ch.execute('user', PM, msg, [coin_v('uA', amt)])
+    I.observe('status', 'ok' if st == 'ok' else 'err')
     I.cover('refused', HINT)
     I.check('single_asset_deposit_refused_' + kind, st != 'ok')
     I.check('no_buffer_left', 'single_side_liquidity_provision_buffer' not in I.world.store(PM))
 
 
+def _replay_refusals(m):
+    kind = ['empty_pool', 'three_assets', 'lock_for_other'][m['_choices']['kind']]
+    steps = [{'op': 'mint', 'to': 'user', 'funds': [coin_j('uA', m['amount'])]}]
+    msg = {'provide_liquidity': {'pool_identifier': 'p1'}}
+    if kind == 'empty_pool':
+        steps.append({'op': 'set_pool', 'pool': pool_json('p1', ['uA', 'uB'], [6, 6], [0, 0], 'constant_product', (0, 0, 0, []))})
+    elif kind == 'three_assets':
+        steps.append({'op': 'set_pool', 'pool': pool_json('p1', ['uA', 'uB', 'uC'], [6, 6, 6], [10 ** 6] * 3, {'stable_swap': {'amp': 100}}, (0, 0, 0, []))})
+        steps.append({'op': 'mint', 'to': 'pool_manager', 'funds': [coin_j(d, 10 ** 6) for d in ('uA', 'uB', 'uC')] + [coin_j(LPD['p1'], MINLIQ)]})
+        steps.append({'op': 'mint', 'to': 'holder', 'funds': [coin_j(LPD['p1'], 3 * 10 ** 6 - MINLIQ)]})
+    else:
+        steps.append({'op': 'set_pool', 'pool': pool_json('p1', ['uA', 'uB'], [6, 6], [10 ** 9, 10 ** 9], 'constant_product', (0, 0, 0, []))})
+        steps.append({'op': 'mint', 'to': 'pool_manager', 'funds': [coin_j('uA', 10 ** 9), coin_j('uB', 10 ** 9), coin_j(LPD['p1'], MINLIQ)]})
+        steps.append({'op': 'mint', 'to': 'holder', 'funds': [coin_j(LPD['p1'], 10 ** 9 - MINLIQ)]})
+        msg['provide_liquidity'].update({'receiver': '@victim', 'unlocking_duration': 86400})
+    steps.append({'op': 'execute', 'contract': 'pool_manager', 'sender': 'user', 'funds': [coin_j('uA', m['amount'])], 'msg': msg})
+    return {'setup': {}, 'steps': steps}, len(steps) - 1
+
+
+from .stable3 import ABSTRACT as _ABS3, NOTE as _NOTE3   # noqa: E402
+
 obligation('C14', 'S1.single_asset_refusals', entries=['execute', 'provide_liquidity'], kind='S',
            statement='a single-asset deposit is refused on an empty pool, on a pool with more than two assets, and when it would lock LP for a receiver other than the sender',
-           bounds='three case families, amount symbolic', covers=['refused'])(_ob_refusals)
+           bounds='three case families, amount symbolic (three assets: a stableswap pool with reserves 1e6 each, 1e3 <= amount <= 1e5)', covers=['refused'],
+           abstractions=[_NOTE3 + ' (reached only if the refusal is missing)'], opts={'abstract': _ABS3},
+           replay=generic_replay(_replay_refusals))(_ob_refusals)
 
 from . import lockdep   # noqa: E402,F401  (cross-contract locked-deposit obligations registered for this property)
